@@ -37,7 +37,7 @@ func (v *Vue) evalVHtml(ctx VueContext, n *html.Node) error {
 	htmlStr := ""
 	if val != nil {
 		// (nothing is nothing: fmt would print "<nil>", which is an element for an HTML parser)
-		htmlStr = fmt.Sprint(val)
+		htmlStr = helpers.Sprint(val)
 	}
 	n.Attr = append(n.Attr, html.Attribute{Key: "data-v-html-content", Val: htmlStr})
 
